@@ -276,6 +276,10 @@ class VProbeEvent(EventABC):
 
     def hook_registration(self):
         hs = []
+        if not hasattr(self, "hookspecs"):
+            # asked for hooks before setup() ran: nothing to register yet (the oracles will see missing invocations)
+            T().count("hook_registration_before_setup")
+            return hs
         for (typ, before, tlist, cls, inst) in self.hookspecs:
             kw = {}
             if cls:
